@@ -1234,6 +1234,12 @@ func (d *Pegnetd) recordPegnetRequests(sqlTx *sql.Tx, txBatchs []*fat2.Transacti
 		for j := range txBatchs[i].Transactions {
 			// Retrieve each tx individually.
 			tx := txBatchs[i].Transactions[j]
+			// The batch can hold other transactions next to its PEG requests
+			// (transfers, conversions into other assets). Those were fully
+			// applied when the batch was recorded and must not be paid again here.
+			if !tx.IsPEGRequest() {
+				continue
+			}
 			// The txid helps determine the order when deciding who
 			// gets the dust
 			txid := transactionid.FormatTxID(j, txBatchs[i].Entry.Hash.String())
